@@ -601,8 +601,9 @@ func (s *Session) Apply(i int, st Step) {
 		s.ev(Event{Dir: EV, What: "SNFAIL"})
 		s.SN.SetFailWrites(&net.OpError{Op: "write", Net: "udp", Err: errors.New("network is unreachable")})
 	case "mqstall": // the broker stops reading: the gateway's writes to it block
-		s.ev(Event{Dir: EV, What: "MQSTALL"})
-		s.MQ.SetStalled(true)
+		// D > 0: it still takes D more bytes (the rest of its socket buffer)
+		s.ev(Event{Dir: EV, What: fmt.Sprintf("MQSTALL room=%d", st.D)})
+		s.MQ.SetStalledAfter(true, int(st.D))
 	case "mqunstall":
 		s.ev(Event{Dir: EV, What: "MQUNSTALL"})
 		s.MQ.SetStalled(false)
